@@ -219,6 +219,21 @@ def body_integrate(case, ctx):
             raise AssertionError("oracle self-inconsistency: nested loops vs product of 1-D sums")
 
 
+    # ---- the same MultiDomainGrid after the weights of its first domain grid were reassigned (x1.5 through the setter):
+    # the integral follows the current grids by the corresponding factor on every route (nothing remembered from before)
+    count = sum(1 for g in doms if g is doms[0])
+    fac = 1.5**count
+    doms[0].weights = np.asarray(doms[0].weights, dtype=float) * 1.5
+    for label, kw in (("vectorised", {}), ("non-vectorised-default-chunk", {"non_vectorized": True})):
+        try:
+            v = float(mg.integrate(fun, **kw))
+        except (TypeError, ValueError):
+            ctx.fail(label + ":type", "result after a weights reassignment is not a number")
+            continue
+        if not abs(v - fac * ref) <= fac * tol:
+            ctx.fail(label + "-after-weights-reassignment", f"integrate after domain-0 weights were scaled by 1.5: got {v!r}, expected {fac * ref!r} (tol {fac * tol:.3e}); sizes {sizes}")
+
+
 # ---------------------------------------------------------------------------
 def _strategy():
     coef = st.tuples(
